@@ -22,6 +22,8 @@ TOP_FORMS = ["none", "module", "bare_dir", "package", "stub_package", "package_a
 INNER = {
     "mod.py": "x = 1\n", "mod.pyi": "x: int\n", "other.py": "y = 2\n", "sub/__init__.py": "", "sub/leaf.py": "z = 3\n", "sub/deep/__init__.py": "", "sub/deep/m.py": "",
     "nsdir/inner.py": "", "data.txt": "hello", "__pycache__/mod.cpython-312.pyc": "junk", "stubonly.pyi": "s: int\n",
+    # a module file next to a same-named sub-package (the package wins for CPython), and a sub-package whose files sort on both sides of __init__.py
+    "sub.py": "shadowed = 1\n", "pk2/__init__.py": "", "pk2/aaa.py": "", "pk2/Zed.py": "", "pk2/_x.py": "",
 }
 
 
@@ -186,6 +188,12 @@ def cases(seed, n_random):
                   ["mod.py", "__pycache__/mod.cpython-312.pyc", "nsdir/inner.py", "stubonly.pyi"]]
     for forms in itertools.product(TOP_FORMS, repeat=2):
         yield forms, (inner_opts[2], inner_opts[3])
+    # directed layouts: a sub-package that exists only in the SECOND portion of a namespace package (its files sort before and after __init__.py in every
+    # listing order) while the first portion already claimed another sub-package; a module file shadowed by a same-named sub-package
+    pk2 = ["pk2/__init__.py", "pk2/aaa.py", "pk2/Zed.py", "pk2/_x.py"]
+    for forms in (("bare_dir", "bare_dir"), ("package", "none"), ("bare_dir", "none"), ("none", "package")):
+        yield forms, (["sub/__init__.py", "sub/leaf.py", "sub.py"], pk2 + ["other.py"])
+        yield forms, (pk2 + ["sub.py", "sub/__init__.py", "sub/leaf.py"], ["mod.py"])
     keys = list(INNER)
     for _ in range(n_random):
         forms = (rnd.choice(TOP_FORMS), rnd.choice(TOP_FORMS))
@@ -246,6 +254,19 @@ def root_cause(forms, inner, problems):
         under_clash = lambda p: "listing order" in p or any(re.search(r"\btop\." + re.escape(n) + r"\b", p) for n in clash)  # noqa: E731
         if clash and all(under_clash(p) and ("!=" in p or "imports" in p or "not importable" in p or "listing order" in p or "but not loaded" in p) for p in problems):
             return ["C14-F1"]
+    # C14-F2: a module file next to a same-named directory that is not a package (X.py and X/<deeper>/__init__.py or X/<file>.py without X/__init__.py):
+    # CPython binds X to the module file, so nothing below X/ is importable; Griffe attaches what it finds below X/ under the module X
+    shadowed = set()
+    for form, rels in zip(forms, inner):
+        if form == "none" or form == "module":
+            continue
+        for r in rels:
+            if r.endswith(".py") and "/" not in r:
+                x = r[:-3]
+                if any(o.startswith(x + "/") for o in rels) and f"{x}/__init__.py" not in rels:
+                    shadowed.add(x)
+    if shadowed and all("not importable for CPython" in p and any(re.search(r"\btop\." + re.escape(x) + r"\.", p) for x in shadowed) for p in problems):
+        return ["C14-F2"]
     return []
 
 
